@@ -54,7 +54,7 @@ def check_rl_rows(ctx: Ctx, rule: str, m: S.SchemeModel, rows, label: str):
             )
 
 
-def check_elision(ctx: Ctx):
+def check_elision(ctx: Ctx, rule: str = "R06.b"):
     """R06.b: fraction_numerator_is_nonzero answers True only for a**-1 and products of accepted factors."""
     f = ctx.sm.func("schemes.py", "fraction_numerator_is_nonzero")
     p = f.params[0]
@@ -69,31 +69,31 @@ def check_elision(ctx: Ctx):
         is_false = isinstance(v, ast.Constant) and v.value is False
         key = f.key(f"return::{norm(r)}::{[c for c, _ in chain_txt]}")
         if is_false:
-            ctx.ok("R06.b", key, "conservative answer (guard kept)", f.where(r))
+            ctx.ok(rule, key, "conservative answer (guard kept)", f.where(r))
             continue
         if not is_true:
-            ctx.fail("R06.b", key, f"returns {norm(v) if v is not None else None}: neither True nor False; the elision decision must be a definite boolean", f.where(r))
+            ctx.fail(rule, key, f"returns {norm(v) if v is not None else None}: neither True nor False; the elision decision must be a definite boolean", f.where(r))
             continue
         n_true += 1
         in_pow = (f"isinstance({p}, Pow)", True) in chain_txt
         in_mul = (f"isinstance({p}, Mul)", True) in chain_txt and (f"isinstance({p}, Pow)", False) in chain_txt or (f"isinstance({p}, Mul)", True) in chain_txt
         if in_pow:
             good = any(("is S.NegativeOne" in c or "== -1" in c or "is NegativeOne" in c) and pol for c, pol in chain_txt)
-            ctx.check(good, "R06.b", key, "True for a**-1 only", f"returns True for a Pow without requiring the exponent to be -1 (conditions: {chain_txt})", f.where(r))
+            ctx.check(good, rule, key, "True for a**-1 only", f"returns True for a Pow without requiring the exponent to be -1 (conditions: {chain_txt})", f.where(r))
         elif in_mul:
             # either "no potentially-zero factor" or the else branch of the recursion loop
             txts = " ".join(c for c, _ in chain_txt)
             good = ("len(potentially_nonzero_args) == 0" in txts) or any(c.startswith("loopelse:") for c, _ in chain_txt)
-            ctx.check(good, "R06.b", key, "True for a product whose factors are all accepted", f"returns True inside the Mul branch under unexpected conditions {chain_txt}", f.where(r))
+            ctx.check(good, rule, key, "True for a product whose factors are all accepted", f"returns True inside the Mul branch under unexpected conditions {chain_txt}", f.where(r))
         else:
-            ctx.fail("R06.b", key, f"returns True for an expression that is neither a**-1 nor a product (conditions: {chain_txt}); the zero-division guard would be dropped for it", f.where(r))
-    ctx.check(n_true >= 1, "R06.b", f.key("has-true"), "elision is possible", "fraction_numerator_is_nonzero never returns True", f.where())
+            ctx.fail(rule, key, f"returns True for an expression that is neither a**-1 nor a product (conditions: {chain_txt}); the zero-division guard would be dropped for it", f.where(r))
+    ctx.check(n_true >= 1, rule, f.key("has-true"), "elision is possible", "fraction_numerator_is_nonzero never returns True", f.where())
     # classification of constant factors and the recursion
     tests = [norm(n.test).replace("sympy.", "") for n in ast.walk(f.node) if isinstance(n, ast.If)]
     cls_ok = any("free_symbols" in t and "is_nonzero" in t and " and " in t for t in tests)
-    ctx.check(cls_ok, "R06.b", f.key("certainly-nonzero-test"), "a factor is certainly non-zero only if it has no free symbols AND is_nonzero", f"the test that classifies a factor as certainly non-zero is not `len(e.free_symbols) == 0 and e.is_nonzero` (tests: {tests})", f.where())
+    ctx.check(cls_ok, rule, f.key("certainly-nonzero-test"), "a factor is certainly non-zero only if it has no free symbols AND is_nonzero", f"the test that classifies a factor as certainly non-zero is not `len(e.free_symbols) == 0 and e.is_nonzero` (tests: {tests})", f.where())
     rec_ok = any(t.replace(" ", "") .startswith(f"not{f.name}(") for t in tests)
-    ctx.check(rec_ok, "R06.b", f.key("recursion"), "every remaining factor must itself be accepted", "no `if not fraction_numerator_is_nonzero(e): return False` test over the remaining factors", f.where())
+    ctx.check(rec_ok, rule, f.key("recursion"), "every remaining factor must itself be accepted", "no `if not fraction_numerator_is_nonzero(e): return False` test over the remaining factors", f.where())
     # last statement: conservative default
     last = f.node.body[-1]
     dflt = None
@@ -108,13 +108,14 @@ def check_elision(ctx: Ctx):
                 break
     elif isinstance(last, ast.Return):
         dflt = last
-    ctx.check(isinstance(dflt, ast.Return) and isinstance(dflt.value, ast.Constant) and dflt.value.value is False, "R06.b", f.key("default"), "anything else: False (guard kept)", "the default answer of fraction_numerator_is_nonzero is not `return False`", f.where())
+    ctx.check(isinstance(dflt, ast.Return) and isinstance(dflt.value, ast.Constant) and dflt.value.value is False, rule, f.key("default"), "anything else: False (guard kept)", "the default answer of fraction_numerator_is_nonzero is not `return False`", f.where())
 
 
 def check_delta_flow(ctx: Ctx, rule: str):
     sm = ctx.sm
     add = sm.func("cli/utils.py", "add_schemes")
-    common.check_scheme_kwargs(ctx, rule, "delta")
+    _, _table = common.alias_table(ctx)
+    common.check_scheme_kwargs(ctx, rule, "delta", only_builders={_table.get("generalized_rush_larsen", "generalized_rush_larsen")})
     # and the kwargs reach codegen.scheme(...)
     sc = [c for c in find_calls(add.node, "codegen.scheme")]
     ctx.check(bool(sc) and any(k.arg is None and norm(k.value) == "kwargs" for k in sc[0].keywords), rule, add.key("kwargs-forwarded"), "**kwargs reach codegen.scheme", "add_schemes does not forward **kwargs to codegen.scheme", add.where())
